@@ -45,15 +45,116 @@ const (
 	okMap1
 	okRec3
 	okBad
+	okTyped  // an integer of a fixed Go width (w), value in i / u
+	okTSlice // a slice of such integers
+	okInts8  // ownInts8T
+	okF64
+	okF32
 )
 
 type ownVal struct {
 	k    ownKind
 	b    bool
+	w    byte   // width letter a..h
+	u    uint64 // unsigned payload / float bits
+	is   []int64
+	us   []uint64
 	i    int64
 	s    string
 	xs   []*ownVal
 	strs []string
+}
+
+type ownInts8T struct {
+	A int8
+	B int16
+	C int32
+	D int64
+	E uint8
+	F uint16
+	G uint32
+	H uint64
+	T bool
+}
+
+func ownTypedInt(w byte, i int64, u uint64) interface{} {
+	switch w {
+	case 'a':
+		return int8(i)
+	case 'b':
+		return int16(i)
+	case 'c':
+		return int32(i)
+	case 'd':
+		return i
+	case 'e':
+		return uint8(u)
+	case 'f':
+		return uint16(u)
+	case 'g':
+		return uint32(u)
+	}
+	return u
+}
+
+func ownTypedSlice(w byte, is []int64, us []uint64) interface{} {
+	switch w {
+	case 'a':
+		r := make([]int8, len(is))
+		for k, x := range is {
+			r[k] = int8(x)
+		}
+		return r
+	case 'b':
+		r := make([]int16, len(is))
+		for k, x := range is {
+			r[k] = int16(x)
+		}
+		return r
+	case 'c':
+		r := make([]int32, len(is))
+		for k, x := range is {
+			r[k] = int32(x)
+		}
+		return r
+	case 'd':
+		return append([]int64{}, is...)
+	case 'e':
+		// []uint8 would be base64 text: box the elements instead
+		r := make([]interface{}, len(us))
+		for k, x := range us {
+			r[k] = uint8(x)
+		}
+		return r
+	case 'f':
+		r := make([]uint16, len(us))
+		for k, x := range us {
+			r[k] = uint16(x)
+		}
+		return r
+	case 'g':
+		r := make([]uint32, len(us))
+		for k, x := range us {
+			r[k] = uint32(x)
+		}
+		return r
+	}
+	return append([]uint64{}, us...)
+}
+
+func ownParseInt(w byte, d string) (int64, uint64) {
+	if w >= 'e' {
+		u, err := strconv.ParseUint(d, 10, 64)
+		if err != nil {
+			panic("bad uint")
+		}
+		return 0, u
+	}
+	i, err := strconv.ParseInt(d, 10, 64)
+	if err != nil {
+		panic("bad int")
+	}
+	return i, 0
 }
 
 type rec3T struct {
@@ -118,6 +219,47 @@ func (p *ownParser) val() *ownVal {
 	case 'b':
 		p.p++
 		return &ownVal{k: okBad}
+	case 'j':
+		w := p.s[p.p+1]
+		p.p += 2
+		i, u := ownParseInt(w, p.until(';'))
+		return &ownVal{k: okTyped, w: w, i: i, u: u}
+	case 'q':
+		w := p.s[p.p+1]
+		p.p += 2
+		v := &ownVal{k: okTSlice, w: w}
+		if d := p.until(';'); d != "" {
+			for _, x := range strings.Split(d, ",") {
+				i, u := ownParseInt(w, x)
+				v.is, v.us = append(v.is, i), append(v.us, u)
+			}
+		}
+		return v
+	case 'k':
+		p.p++
+		v := &ownVal{k: okInts8}
+		for n := 0; n < 8; n++ {
+			w := byte('a' + n)
+			i, u := ownParseInt(w, p.until(';'))
+			v.is, v.us = append(v.is, i), append(v.us, u)
+		}
+		v.b = p.s[p.p] == 't'
+		p.p++
+		return v
+	case 'F':
+		p.p++
+		u, err := strconv.ParseUint(p.until(';'), 16, 64)
+		if err != nil {
+			panic("bad float bits")
+		}
+		return &ownVal{k: okF64, u: u}
+	case 'G':
+		p.p++
+		u, err := strconv.ParseUint(p.until(';'), 16, 32)
+		if err != nil {
+			panic("bad float bits")
+		}
+		return &ownVal{k: okF32, u: u}
 	case 'i':
 		p.p++
 		n, err := strconv.ParseInt(p.until(';'), 10, 64)
@@ -196,6 +338,16 @@ func (v *ownVal) goValue() interface{} {
 		return map[string]interface{}{v.s: v.xs[0].goValue()}
 	case okRec3:
 		return rec3T{A: v.s, B: v.strs, C: v.i}
+	case okTyped:
+		return ownTypedInt(v.w, v.i, v.u)
+	case okTSlice:
+		return ownTypedSlice(v.w, v.is, v.us)
+	case okInts8:
+		return ownInts8T{int8(v.is[0]), int16(v.is[1]), int32(v.is[2]), v.is[3], uint8(v.us[4]), uint16(v.us[5]), uint32(v.us[6]), v.us[7], v.b}
+	case okF64:
+		return math.Float64frombits(v.u)
+	case okF32:
+		return math.Float32frombits(uint32(v.u))
 	}
 	return math.NaN() // okBad: rejected by the encoder after what precedes it was written
 }
@@ -225,6 +377,9 @@ func (v *ownVal) node() ast.Node {
 		}
 		return ast.NewObject([]ast.Pair{ast.NewPair("a", ast.NewString(v.s)), ast.NewPair("b", ast.NewArray(b)),
 			ast.NewPair("c", ast.NewNumber(strconv.FormatInt(v.i, 10)))})
+	}
+	if v.k >= okTyped {
+		return ast.NewAny(v.goValue())
 	}
 	return ast.NewAny(math.NaN())
 }
@@ -299,6 +454,10 @@ func ownQuote(dst []byte, s string) []byte {
 }
 
 func (v *ownVal) render(dst []byte) []byte {
+	if v.k >= okTyped {
+		b, _ := json.Marshal(v.goValue())
+		return append(dst, b...)
+	}
 	switch v.k {
 	case okNull:
 		return append(dst, "null"...)
@@ -771,6 +930,32 @@ func init() {
 		plain, perr := encoder.Encode(val, opts)
 		plain = append([]byte(nil), plain...)
 
+		// 1. on the heap, inside a larger array whose tail is watched: an overrun is reported, not fatal
+		const tailLen = 64
+		backing := make([]byte, c+tailLen)
+		for i := range backing {
+			backing[i] = 0xA5
+		}
+		copy(backing, prior)
+		hbuf := backing[:len(prior):c]
+		herr := encoder.EncodeInto(&hbuf, val, opts)
+		hout := append([]byte(nil), hbuf...)
+		over := false
+		for i := c; i < len(backing); i++ {
+			if backing[i] != 0xA5 {
+				over = true
+			}
+		}
+		hpre := bytes.Equal(backing[:len(prior)], prior)
+		if over || !hpre {
+			hres := hexArg(hout)
+			if herr != nil {
+				hres = "err:" + hres
+			}
+			return "sonic=" + hres + "\tref=-\tpre=" + b01(hpre) + "\tover=" + b01(over) + "\timpl=" + impl + "\tplace=heap"
+		}
+
+		// 2. at the end of a mapping, the next page inaccessible: an overrun kills the worker
 		page := syscall.Getpagesize()
 		const canary = 64
 		usable := (c + canary + page - 1) / page * page
@@ -821,7 +1006,8 @@ func init() {
 		} else {
 			ref = hexArg(append(append([]byte(nil), prior...), plain...))
 		}
-		return "sonic=" + res + "\tref=" + ref + "\tpre=" + b01(pre) + "\timpl=" + impl + "\tmoved=" + b01(moved)
+		agree := bytes.Equal(hout, out) && (herr != nil) == (eerr != nil)
+		return "sonic=" + res + "\tref=" + ref + "\tpre=" + b01(pre) + "\tover=0\timpl=" + impl + "\tmoved=" + b01(moved) + "\tplaces=" + b01(agree)
 	})
 
 	// htmlesc <cap> <prior hex> <src hex>
@@ -847,116 +1033,111 @@ func init() {
 		return "sonic=" + hexArg(out) + "\tref=" + hexArg(std.Bytes()) + "\tpre=" + b01(pre)
 	})
 
-	// alias <api> <doc hex>
+	// alias <entry>.<cfg>.<dest> <doc hex>
+	//   entry: unmarshal | unmarshalstring | decoder | get | getcopy | getref | getfromstring
+	//   cfg:   def | std | cs | csnum | num          dest: iface | mapiface | sliface | typed | nodes | wrap | node
 	registerOp("alias", func(a []string) string {
 		api := a[0]
+		if old, ok := ownOldAlias[api]; ok {
+			api = old
+		}
+		f := strings.Split(api, ".")
+		if len(f) != 3 {
+			return "sonic=unsupported"
+		}
+		entry, cfgName, dest := f[0], f[1], f[2]
 		buf := append([]byte(nil), unhexArg(a[1])...)
-		type typed struct {
-			A string            `json:"a"`
-			B []string          `json:"b"`
-			M map[string]string `json:"m"`
-			R json.RawMessage   `json:"r"`
-			N json.Number       `json:"n"`
-			Y []byte            `json:"y"`
-			I interface{}       `json:"i"`
-		}
-		var read func() []string
-		var labels func() []string
+		var read func() []ownLab
 		var derr error
-		generic := func(dec func(v interface{}) error) {
-			var v interface{}
-			derr = dec(&v)
-			read = func() []string { return collectStrs(v, nil) }
-		}
-		typ := func(dec func(v interface{}) error) {
-			var v typed
-			derr = dec(&v)
-			read = func() []string {
-				out := []string{v.A}
-				out = append(out, v.B...)
-				out = collectStrs(v.M, out)
-				out = append(out, string(v.R), string(v.N), string(v.Y))
-				return collectStrs(v.I, out)
+		switch entry {
+		case "unmarshal", "unmarshalstring", "decoder":
+			cfg, ok := ownAliasCfg[cfgName]
+			if !ok {
+				return "sonic=unsupported"
 			}
-			labels = func() []string {
-				out := []string{"a"}
-				for range v.B {
-					out = append(out, "b")
+			dec := func(v interface{}) error {
+				switch entry {
+				case "unmarshal":
+					return cfg.Unmarshal(buf, v)
+				case "unmarshalstring":
+					return cfg.UnmarshalFromString(unsafeStr(buf), v)
 				}
-				for range collectStrs(v.M, nil) {
-					out = append(out, "m")
+				d := decoder.NewDecoder(unsafeStr(buf))
+				switch cfgName {
+				case "cs":
+					d.CopyString()
+				case "csnum":
+					d.CopyString()
+					d.UseNumber()
+				case "num":
+					d.UseNumber()
+				case "std":
+					d.CopyString()
+					d.ValidateString()
 				}
-				out = append(out, "r", "n", "y")
-				for range collectStrs(v.I, nil) {
-					out = append(out, "i")
-				}
-				return out
+				return d.Decode(v)
 			}
-		}
-		cs := sonic.Config{CopyString: true}.Froze()
-		switch api {
-		case "unmarshal":
-			generic(func(v interface{}) error { return sonic.Unmarshal(buf, v) })
-		case "unmarshal_t":
-			typ(func(v interface{}) error { return sonic.Unmarshal(buf, v) })
-		case "unmarshal_std":
-			generic(func(v interface{}) error { return sonic.ConfigStd.Unmarshal(buf, v) })
-		case "copystring":
-			generic(func(v interface{}) error { return cs.UnmarshalFromString(unsafeStr(buf), v) })
-		case "copystring_t":
-			typ(func(v interface{}) error { return cs.UnmarshalFromString(unsafeStr(buf), v) })
-		case "decoder_copystring":
-			generic(func(v interface{}) error {
-				d := decoder.NewDecoder(unsafeStr(buf))
-				d.CopyString()
-				return d.Decode(v)
-			})
-		case "decoder_copystring_t":
-			typ(func(v interface{}) error {
-				d := decoder.NewDecoder(unsafeStr(buf))
-				d.CopyString()
-				return d.Decode(v)
-			})
-		case "unmarshalstring":
-			generic(func(v interface{}) error { return sonic.UnmarshalString(unsafeStr(buf), v) })
-		case "unmarshalstring_t":
-			typ(func(v interface{}) error { return sonic.UnmarshalString(unsafeStr(buf), v) })
-		case "get", "getfromstring":
+			switch dest {
+			case "iface":
+				var v interface{}
+				derr = dec(&v)
+				read = func() []ownLab { return ownCollect(v, "", nil) }
+			case "mapiface":
+				var v map[string]interface{}
+				derr = dec(&v)
+				read = func() []ownLab { return ownCollect(v, "", nil) }
+			case "sliface":
+				var v []interface{}
+				derr = dec(&v)
+				read = func() []ownLab { return ownCollect(v, "", nil) }
+			case "typed":
+				var v ownAliasTyped
+				derr = dec(&v)
+				read = func() []ownLab {
+					out := []ownLab{{"a", v.A}}
+					for _, x := range v.B {
+						out = append(out, ownLab{"b", x})
+					}
+					for _, x := range collectStrs(v.M, nil) {
+						out = append(out, ownLab{"m", x})
+					}
+					return append(out, ownLab{"r", string(v.R)}, ownLab{"n", string(v.N)}, ownLab{"y", string(v.Y)}, ownLab{"s2", v.S2})
+				}
+			case "wrap":
+				var v ownAliasWrap
+				derr = dec(&v)
+				read = func() []ownLab {
+					out := ownCollect(v.I, "", nil)
+					out = ownCollect(v.MI, "", out)
+					return ownCollect(v.SI, "", out)
+				}
+			case "nodes":
+				var v ownAliasNodes
+				derr = dec(&v)
+				var h1, h2 *ownNodeReader
+				read = func() []ownLab {
+					if h1 == nil {
+						h1, h2 = &ownNodeReader{n: &v.Nd}, &ownNodeReader{n: v.Pn}
+					}
+					return append(h1.read("nd"), h2.read("pn")...)
+				}
+			default:
+				return "sonic=unsupported"
+			}
+		case "get", "getcopy", "getref", "getfromstring":
 			var nd ast.Node
-			if api == "get" {
+			switch entry {
+			case "get":
 				nd, derr = sonic.Get(buf)
-			} else {
+			case "getcopy":
+				nd, derr = sonic.GetWithOptions(buf, ast.SearchOptions{CopyReturn: true, ValidateJSON: true})
+			case "getref":
+				nd, derr = sonic.GetWithOptions(buf, ast.SearchOptions{ValidateJSON: true})
+			default:
 				nd, derr = sonic.GetFromString(unsafeStr(buf))
 			}
-			var handed []string
-			read = func() []string {
-				if handed == nil {
-					// everything the node hands out before the caller touches its buffer
-					s, _ := nd.Raw()
-					handed = []string{s}
-					if t := nd.TypeSafe(); t == ast.V_ARRAY || t == ast.V_OBJECT {
-						for i := 0; i < 4; i++ {
-							c := nd.Index(i)
-							if c == nil || !c.Exists() {
-								break
-							}
-							r, _ := c.Raw()
-							handed = append(handed, r)
-							if c.TypeSafe() == ast.V_STRING {
-								sv, _ := c.String()
-								handed = append(handed, sv)
-							}
-						}
-					} else if t == ast.V_STRING {
-						sv, _ := nd.String()
-						handed = append(handed, sv)
-					}
-				}
-				// the same strings as they read now, and what the node answers now
-				out := append([]string(nil), handed...)
-				s, _ := nd.Raw()
-				return append(out, s)
-			}
+			h := &ownNodeReader{n: &nd}
+			read = func() []ownLab { return h.read("node") }
 		default:
 			return "sonic=unsupported"
 		}
@@ -964,9 +1145,13 @@ func init() {
 			for i := range buf {
 				buf[i] ^= 0xFF
 			}
-			return "sonic=err\tsame=1\tnstr=0"
+			return "sonic=err\tsame=1\tnstr=0\tdiff="
 		}
-		before := cloneStrs(read())
+		first := read()
+		before := make([]string, len(first))
+		for i, l := range first {
+			before[i] = string(append([]byte(nil), l.s...))
+		}
 		for i := range buf {
 			buf[i] ^= 0xFF
 		}
@@ -974,20 +1159,14 @@ func init() {
 		same := len(before) == len(after)
 		diff := map[string]bool{}
 		if same {
-			var ls []string
-			if labels != nil {
-				ls = labels()
-			}
 			for i := range before {
-				if before[i] != after[i] {
+				if before[i] != after[i].s {
 					same = false
-					if i < len(ls) {
-						diff[ls[i]] = true
-					} else {
-						diff["?"] = true
-					}
+					diff[after[i].l] = true
 				}
 			}
+		} else {
+			diff["shape"] = true
 		}
 		dl := make([]string, 0, len(diff))
 		for k := range diff {
@@ -1001,6 +1180,113 @@ func init() {
 			}
 		}
 		runtime.KeepAlive(buf)
-		return "sonic=ok\tsame=" + b01(same) + "\tnstr=" + itoa(n) + "\tdiff=" + strings.Join(dl, "")
+		return "sonic=ok\tsame=" + b01(same) + "\tnstr=" + itoa(n) + "\tdiff=" + strings.Join(dl, ",")
 	})
+}
+
+type ownLab struct{ l, s string }
+
+type ownAliasTyped struct {
+	A  string            `json:"a"`
+	B  []string          `json:"b"`
+	M  map[string]string `json:"m"`
+	R  json.RawMessage   `json:"r"`
+	N  json.Number       `json:"n"`
+	Y  []byte            `json:"y"`
+	S2 string            `json:"s2,omitempty"`
+}
+
+type ownAliasWrap struct {
+	I  interface{}            `json:"i"`
+	MI map[string]interface{} `json:"mi"`
+	SI []interface{}          `json:"si"`
+}
+
+type ownAliasNodes struct {
+	Nd ast.Node  `json:"nd"`
+	Pn *ast.Node `json:"pn"`
+}
+
+var ownAliasCfg = map[string]sonic.API{
+	"def":   sonic.ConfigDefault,
+	"std":   sonic.ConfigStd,
+	"cs":    sonic.Config{CopyString: true}.Froze(),
+	"csnum": sonic.Config{CopyString: true, UseNumber: true}.Froze(),
+	"num":   sonic.Config{UseNumber: true}.Froze(),
+}
+
+var ownOldAlias = map[string]string{
+	"unmarshal": "unmarshal.def.iface", "unmarshal_t": "unmarshal.def.typed", "unmarshal_std": "unmarshal.std.iface",
+	"copystring": "unmarshalstring.cs.iface", "copystring_t": "unmarshalstring.cs.typed",
+	"decoder_copystring": "decoder.cs.iface", "decoder_copystring_t": "decoder.cs.typed",
+	"unmarshalstring": "unmarshalstring.def.iface", "unmarshalstring_t": "unmarshalstring.def.typed",
+	"get": "get.def.node", "getfromstring": "getfromstring.def.node",
+}
+
+// everything textual reachable from a decoded generic value: strings S, numbers N, keys K (sorted)
+func ownCollect(v interface{}, pre string, out []ownLab) []ownLab {
+	switch t := v.(type) {
+	case string:
+		return append(out, ownLab{pre + "S", t})
+	case json.Number:
+		return append(out, ownLab{pre + "N", string(t)})
+	case []interface{}:
+		for _, x := range t {
+			out = ownCollect(x, pre, out)
+		}
+	case map[string]interface{}:
+		ks := make([]string, 0, len(t))
+		for k := range t {
+			ks = append(ks, k)
+		}
+		sort.Strings(ks)
+		for _, k := range ks {
+			out = append(out, ownLab{pre + "K", k})
+			out = ownCollect(t[k], pre, out)
+		}
+	}
+	return out
+}
+
+// what a node hands out before the caller touches its buffer, re-read later through the same
+// string headers, plus what the node answers when asked again
+type ownNodeReader struct {
+	n      *ast.Node
+	handed []string
+	done   bool
+}
+
+func (h *ownNodeReader) read(label string) []ownLab {
+	if h.n == nil {
+		return nil
+	}
+	if !h.done {
+		h.done = true
+		s, _ := h.n.Raw()
+		h.handed = []string{s}
+		switch h.n.TypeSafe() {
+		case ast.V_ARRAY, ast.V_OBJECT:
+			for i := 0; i < 4; i++ {
+				c := h.n.Index(i)
+				if c == nil || !c.Exists() {
+					break
+				}
+				r, _ := c.Raw()
+				h.handed = append(h.handed, r)
+				if c.TypeSafe() == ast.V_STRING {
+					sv, _ := c.String()
+					h.handed = append(h.handed, sv)
+				}
+			}
+		case ast.V_STRING:
+			sv, _ := h.n.String()
+			h.handed = append(h.handed, sv)
+		}
+	}
+	out := make([]ownLab, 0, len(h.handed)+1)
+	for _, s := range h.handed {
+		out = append(out, ownLab{label, s})
+	}
+	s, _ := h.n.Raw()
+	return append(out, ownLab{label, s})
 }
